@@ -376,6 +376,7 @@ theorem handle_adv (s : St) (p : Parked) (kn : Nat → Bool) (op : Op) (hop : op
     | exact handlePeerSnubbed_adv (s, []) ..
     | exact Adv.frame rfl rfl rfl rfl
     | (next heq => have hm := congrArg Prod.fst heq; simp only at hm; rw [← hm]; exact acceptPeer_adv (s, []) ..)
+    | (next heq => exact Adv.of_eq rfl rfl (Or.inl rfl) (Or.inr heq.symm))
     | exact Adv.of_eq (by simp) (by simp) (Or.inl (by simp)) (by simpa using stop_persisted s false)
     | (refine ((?_ : Adv s { s with persisted := none }).trans
           (handleVerifyCommand_adv ({ s with persisted := none }, []))).trans ?_
